@@ -124,6 +124,12 @@ def parallel_stage(ctx, thorough):
                 raise vlib.Infra("parallel pipeline driver timed out: " + r["crash"][-800:])
             m = re.search(r"WARNING: DATA RACE.*?(?:\n==================|\Z)", r["crash"], re.S)
             if m:
+                # a write made by the driver itself is the driver's business, not the workers'
+                parts = re.split(r"\n\n", m.group(0))
+                drv_write = any(re.match(r"(WARNING: DATA RACE\n)?(Previous )?[Ww]rite at", pt.strip()) and
+                                "zz_verif" in (re.findall(r"^      (\S+):\d+", pt, re.M) or [""])[0] for pt in parts[:2])
+                if drv_write:
+                    raise vlib.Infra("the parallel driver itself wrote something the workers read: " + m.group(0)[:1200])
                 ctx.violation("%s pipeline, 4 workers in parallel: the workers share state they write without synchronisation (race detector): %s"
                               % (proto, " / ".join(re.findall(r"^  (github[^\n(]*)", m.group(0), re.M)[:4])), dict(case, report=m.group(0)[:2500]),
                               key=proto + ":parallel-race")
